@@ -1,6 +1,7 @@
     // abstract content and effects of the wrapper, in terms of its real fields
     spec fn has(&self, id: Index) -> bool { self.storage.has(id) }
     spec fn val(&self, id: Index) -> C { self.storage.val(id) }
+    spec fn us_wf(&self) -> bool { self.storage.us_wf() }
     spec fn log(&self) -> Seq<ComponentEvent> { self.channel.inner()@ }
     spec fn ev_insert(&self, id: Index) -> Seq<ComponentEvent> { one_if(self.emits(), ComponentEvent::Inserted(id)) }
     spec fn ev_remove(&self, id: Index) -> Seq<ComponentEvent> { one_if(self.emits(), ComponentEvent::Removed(id)) }
